@@ -1,6 +1,6 @@
 #!/usr/bin/env python3
 """Confirm a seeded change (patch + demo from an independent agent) and run our check against it.
-usage: tools/seedtest.py <PROP> <worktree> <letter> [--checks C03,C15]
+usage: tools/seedtest.py <PROP> <worktree> <letter> [--checks C03,C15] [--as <stored letter>]
 Writes /verif/seeded/<PROP>-<letter>/{patch.diff,demo.py,meta.json}."""
 import json, os, shutil, subprocess, sys, time
 
@@ -53,7 +53,8 @@ def main():
                     pass
     finally:
         sh("git -C %s checkout -- ." % target)
-    d = os.path.join("/verif/seeded", "%s-%s" % (prop, letter))
+    out_letter = sys.argv[sys.argv.index("--as") + 1] if "--as" in sys.argv else letter
+    d = os.path.join("/verif/seeded", "%s-%s" % (prop, out_letter))
     os.makedirs(d, exist_ok=True)
     shutil.copy(patch, os.path.join(d, "patch.diff"))
     shutil.copy(demo, os.path.join(d, "demo.py"))
